@@ -15,53 +15,38 @@ open AurelVerif.Catalog
 def restartNbrs (ls : List Line) : List Int :=
   ls.filterMap fun l => match l with | .restart n => some (n : Int) | _ => none
 
-theorem restart_marker_iff (l : Line) (hl : LineOK l) :
-    isInfix mRestart (printLine l) = (match l with | .restart _ => true | _ => false) := by
+theorem restart_marker_iff (l : Line) :
+    mRestart.isPrefixOf (printLine l) = (match l with | .restart _ => true | _ => false) := by
   cases l with
-  | restart n => exact isInfix_of_prefix (isPrefixOf_append_self _ _)
-  | vars l => exact vars_no_restart l hl.2
-  | noData p =>
-    have := hl.1; simp only [noMarker, Bool.and_eq_true, Bool.not_eq_true'] at this; exact this.1.1.1.1
-  | reading p =>
-    have := hl.1; simp only [noMarker, Bool.and_eq_true, Bool.not_eq_true'] at this; exact this.1.1.1.1
-  | its a b =>
-    exact isInfix_false_of_char (c := 'r') (by decide) (by simp [printLine, sItEq])
-  | arange rl a b d =>
-    exact isInfix_false_of_char (c := 's') (by decide) (by simp [printLine, mRl, sAtIt, sNpArange])
-  | single rl x =>
-    exact isInfix_false_of_char (c := 's') (by decide) (by simp [printLine, mRl, sAtIt])
-  | chk l =>
-    have hj := comma_notin_join l
-    refine isInfix_false_of_char (c := '=') (by decide) ?_
-    intro hc
-    simp only [printLine, pyNatList, List.mem_append, List.mem_cons, List.mem_nil_iff, or_false] at hc
-    rcases hc with hc | (hc | hc) | hc
-    · revert hc; decide
-    · revert hc; decide
-    · rcases hj _ hc with h | h | h <;> revert h <;> decide
-    · revert hc; decide
+  | restart n => exact isPrefixOf_append_self _ _
+  | vars l => simp [printLine, mRestart, mVars, List.isPrefixOf]
+  | noData p => simp [printLine, mRestart, sNoData, List.isPrefixOf]
+  | reading p => simp [printLine, mRestart, sReading, List.isPrefixOf]
+  | its a b => simp [printLine, mRestart, sItEq, List.isPrefixOf]
+  | arange rl a b d => simp [printLine, mRestart, mRl, List.isPrefixOf]
+  | single rl x => simp [printLine, mRestart, mRl, List.isPrefixOf]
+  | chk l => simp [printLine, mRestart, mChkColon, mChk, List.isPrefixOf]
 
 theorem restartsDone_printLines (ls : List Line) (hok : ∀ l ∈ ls, LineOK l) :
     restartsDone (printLines ls) = .ok (restartNbrs ls) := by
   unfold restartsDone
   rw [split_lines ls hok]
-  have hempty : isInfix mRestart [] = false := by decide
+  have hempty : mRestart.isPrefixOf ([] : Str) = false := by decide
   simp only [List.filter_append, List.filter_cons, hempty, Bool.false_eq_true, if_false, List.filter_nil,
     List.append_nil]
+  clear hok
   induction ls with
   | nil => rfl
   | cons l ls ih =>
-    have hl := hok l (List.mem_cons_self ..)
-    have ih' := ih (fun k hk => hok k (List.mem_cons_of_mem _ hk))
-    simp only [List.map_cons, List.filter_cons, restart_marker_iff l hl]
+    simp only [List.map_cons, List.filter_cons, restart_marker_iff l]
     cases l with
     | restart n =>
       have h2 : split mRestart (printLine (.restart n)) = [[], toDec n] :=
         split_lit_prefix (c := 'r') (by decide) (not_mem_of_isDig_false (by decide) n)
-      simp only [if_true, List.mapM_cons, h2, idx_one, ebind_ok, pyIntE_toDec, ih', restartNbrs,
+      simp only [if_true, List.mapM_cons, h2, idx_one, ebind_ok, pyIntE_toDec, ih, restartNbrs,
         List.filterMap_cons]
       rfl
-    | _ => simpa [restartNbrs] using ih'
+    | _ => simpa [restartNbrs] using ih
 
 /-! ## dictionaries -/
 
@@ -618,8 +603,8 @@ theorem iterations_idempotent_lemma {T : Tables} {S : Sim} {scn : Nat → VarsAn
 
 def lineOKb : Line → Bool
   | .vars l => !l.isEmpty && l.all nameOK
-  | .noData p => noMarker (printLine (.noData p)) && !p.contains '\n' && !p.contains '\r'
-  | .reading p => noMarker (printLine (.reading p)) && !p.contains '\n' && !p.contains '\r'
+  | .noData p => !p.contains '\n' && !p.contains '\r'
+  | .reading p => !p.contains '\n' && !p.contains '\r'
   | _ => true
 
 theorem lineOK_of_b (l : Line) (h : lineOKb l = true) : LineOK l := by
@@ -629,10 +614,10 @@ theorem lineOK_of_b (l : Line) (h : lineOKb l = true) : LineOK l := by
     exact ⟨by intro e; subst e; simp at h, h.2⟩
   | noData p =>
     simp only [lineOKb, Bool.and_eq_true, Bool.not_eq_true'] at h
-    exact ⟨h.1.1, by simpa using h.1.2, by simpa using h.2⟩
+    exact ⟨by simpa using h.1, by simpa using h.2⟩
   | reading p =>
     simp only [lineOKb, Bool.and_eq_true, Bool.not_eq_true'] at h
-    exact ⟨h.1.1, by simpa using h.1.2, by simpa using h.2⟩
+    exact ⟨by simpa using h.1, by simpa using h.2⟩
   | restart n => trivial
   | its a b => trivial
   | arange rl a b d => trivial
